@@ -84,7 +84,10 @@ namespace igris
 
         template <class I, class O> vector(I first, O last) : vector()
         {
-            reserve(std::distance(first, last));
+            reserve_for_range(
+                first,
+                last,
+                typename std::iterator_traits<I>::iterator_category());
             for (; first != last; first++)
             {
                 push_back(*first);
@@ -425,6 +428,20 @@ namespace igris
         }
 
     protected:
+        // A range of forward (multi-pass) iterators can be measured before
+        // it is copied; a single-pass input range (stream iterators) would
+        // be consumed by std::distance and must simply be pushed.
+        template <class I, class O>
+        void reserve_for_range(I first, O last, std::forward_iterator_tag)
+        {
+            reserve(std::distance(first, last));
+        }
+
+        template <class I, class O>
+        void reserve_for_range(I, O, std::input_iterator_tag)
+        {
+        }
+
         unsigned char changeBuffer(size_t sz)
         {
             size_t oldcapacity = m_capacity;
